@@ -514,6 +514,20 @@ pub fn current_username() -> Option<String> {
     users::get_current_username().map(|s| s.to_string_lossy().to_string())
 }
 
+/// Per-case scratch directory: on tmpfs when the machine has one (the cases are dominated by
+/// directory creation/removal), else the system temp dir. Removed when dropped.
+pub fn scratch_dir(prefix: &str) -> std::io::Result<tempfile::TempDir> {
+    let shm = Path::new("/dev/shm");
+    let mut b = tempfile::Builder::new();
+    b.prefix(prefix);
+    if std::env::var_os("VERIF_NO_SHM").is_none() && shm.is_dir() {
+        if let Ok(d) = b.tempdir_in(shm) {
+            return Ok(d);
+        }
+    }
+    b.tempdir()
+}
+
 thread_local! {
     static RT: tokio::runtime::Runtime = tokio::runtime::Builder::new_current_thread()
         .enable_time()
